@@ -486,10 +486,18 @@ impl Router {
         // Remove connections from all groups and
         // discard empty group ( group with no client )
         // note: can we do this in better way?
-        self.shared_subscriptions.retain(|_, group| {
+        let mut turn_changed = Vec::new();
+        self.shared_subscriptions.retain(|key, group| {
+            let before = group.current_client().cloned();
             group.remove_client(&client_id);
+            if !group.is_empty() && group.current_client().cloned() != before {
+                turn_changed.push(key.clone());
+            }
             !group.is_empty()
         });
+        for key in turn_changed {
+            self.wake_shared_turn(&key);
+        }
 
         // Remove this connection from subscriptions
         for filter in connection.subscriptions.iter() {
@@ -728,6 +736,7 @@ impl Router {
                     let connection = self.connections.get_mut(id).unwrap();
                     let pkid = unsubscribe.pkid;
                     let mut reasons = Vec::with_capacity(unsubscribe.filters.len());
+                    let mut wake_turn = Vec::new();
                     for filter in &unsubscribe.filters {
                         let span = tracing::info_span!("unsubscribe", topic = filter, pkid);
                         let _guard = span.enter();
@@ -756,11 +765,18 @@ impl Router {
                         // has no client left
                         if let Some((group_name, filter_path)) = extract_group(filter) {
                             let group_name = shared_group_key(&group_name, &filter_path);
+                            let mut turn_changed = false;
                             if let Some(group) = self.shared_subscriptions.get_mut(&group_name) {
+                                let before = group.current_client().cloned();
                                 group.remove_client(&client_id);
                                 if group.is_empty() {
                                     self.shared_subscriptions.remove(&group_name);
+                                } else {
+                                    turn_changed = group.current_client().cloned() != before;
                                 }
+                            }
+                            if turn_changed {
+                                wake_turn.push(group_name);
                             }
                         }
 
@@ -778,6 +794,10 @@ impl Router {
                         self.notifications
                             .retain(|(cid, request)| !(*cid == id && request.filter == *filter));
                         reasons.push(UnsubAckReason::Success);
+                    }
+
+                    for group_name in wake_turn {
+                        self.wake_shared_turn(&group_name);
                     }
 
                     // exactly one UNSUBACK per UNSUBSCRIBE, with one reason per filter
@@ -1032,6 +1052,19 @@ impl Router {
     /// To activate a connection, first connection's tracker is fetched and
     /// all the requests are handled.
     fn consume(&mut self) -> Option<()> {
+        // members of shared groups found parked while the turn is on them: they are scheduled
+        // once this connection is done (the scheduler wants the connection being consumed at
+        // the back of the ready queue until it is paused)
+        let mut woken = Vec::new();
+        let consumed = self.consume_ready(&mut woken);
+        for (id, request) in woken {
+            self.scheduler.track(id, request);
+            self.scheduler.reschedule(id, ScheduleReason::FreshData);
+        }
+        consumed
+    }
+
+    fn consume_ready(&mut self, woken: &mut Vec<(ConnectionId, DataRequest)>) -> Option<()> {
         let (id, mut requests) = self.scheduler.poll()?;
 
         let span = tracing::info_span!("[<] outgoing", connection_id = id);
@@ -1087,14 +1120,37 @@ impl Router {
                 .as_ref()
                 .and_then(|name| self.shared_subscriptions.get_mut(name));
 
-            match forward_device_data(
+            let status = forward_device_data(
                 &mut request,
                 datalog,
                 outgoing,
                 alertlog,
                 connection,
                 shared_group,
-            ) {
+            );
+
+            // A member of a shared group that reads to the end of the log while it is not its
+            // turn is parked like a caught up subscriber, although the message it skipped is
+            // still pending. Whenever the turn is on another member, make sure that member is
+            // not left parked on this filter: nothing else would wake it before the next
+            // matching publish.
+            if let Some(group) = request
+                .group
+                .as_ref()
+                .and_then(|name| self.shared_subscriptions.get(name))
+            {
+                if let Some(next_id) = group
+                    .current_client()
+                    .filter(|next| **next != outgoing.client_id)
+                    .and_then(|next| self.connection_map.get(next).copied())
+                {
+                    if let Some(parked) = datalog.remove_waiters_for_id(next_id, &request.filter) {
+                        woken.push((next_id, parked));
+                    }
+                }
+            }
+
+            match status {
                 ConsumeStatus::BufferFull => {
                     requests.push_back(request);
                     self.scheduler.pause(id, PauseReason::Busy);
@@ -1127,6 +1183,25 @@ impl Router {
         requests.extend(skipped_requests);
         self.scheduler.trackv(id, requests);
         Some(())
+    }
+
+    /// The turn of a shared subscription group passed to another member: if that member is
+    /// parked on the group's filter (it had read to the end of the log while it was not its
+    /// turn), schedule it again, nothing else would before the next matching publish
+    fn wake_shared_turn(&mut self, group_key: &str) {
+        let Some(next_id) = self
+            .shared_subscriptions
+            .get(group_key)
+            .and_then(|group| group.current_client())
+            .and_then(|next| self.connection_map.get(next).copied())
+        else {
+            return;
+        };
+        let filter = format!("$share/{group_key}");
+        if let Some(parked) = self.datalog.remove_waiters_for_id(next_id, &filter) {
+            self.scheduler.track(next_id, parked);
+            self.scheduler.reschedule(next_id, ScheduleReason::FreshData);
+        }
     }
 
     pub fn handle_last_will(
